@@ -31,12 +31,12 @@ RULE = ("cases: (n, flag vector) pairs; executions: for each, the well-formed li
         "malformed-but-at-least-3-columns or well-formed with n>=1")
 ASSUMPTIONS = ["numeric tokens are drawn from a finite alphabet + seed-derived values; names have no spaces",
                "tokens such as '1.0' or '1_0' in a flag column are not generated (their status as integers is not specified)"]
-REQUIRED_CLASSES = ['looked-at-between-parsing-and-formatting', 'eof', 'rejected-count', 'rejected-flag', 'ok', 'reinterpreted-as-other-n', 'n=0', 'n=12',
+REQUIRED_CLASSES = ['name-with-braces', 'looked-at-between-parsing-and-formatting', 'eof', 'rejected-count', 'rejected-flag', 'ok', 'reinterpreted-as-other-n', 'n=0', 'n=12',
                     'roundtrip-ascii', 'roundtrip-pickle', 'roundtrip-dict', 'name-40', 'tabs', 'negative-and-placeholder', 'earlier-sources-rechecked', 'name-with-hash', 'edited-in-place-then-formatted-again']
 
 FLAGS = (0, 1, 2, 3, 4, 9)
-BADFLAGS = ['5', '8', '10', '-1', '1.5', '7']
-VALS = [1e-30, 3.217e-7, 1.0, 2.5e3, 9.999e29, -1.5, -999.0, 0.0]
+BADFLAGS = ['5', '8', '10', '-1', '1.5', '7', '-7', '-12', '-16', '15', '16', '255', '256', '-128', '99', '-9']
+VALS = [1e-30, 3.217e-7, 1.0, 2.5e3, 9.999e29, -1.5, -999.0, 0.0, -999.4, -9990.0, -9995.25, -999999.0]          # (values that merely begin like the -999 placeholder are values)
 INTLIKE = ['1', '0', '3', '2', '4', '9']          # flux/error tokens that would also be valid flags
 
 
@@ -231,7 +231,9 @@ def run_case(ctx, case, rec, d):
         rot = idx + ctx['seed']
         fl = [vals[(i * 3 + rot) % len(vals)] for i in range(n)]
         er = [vals[(i * 5 + 1 + rot // 3) % len(vals)] for i in range(n)]
-        name = ['s', 'SSTGLMC_G009.8925-00.3420', 'n' * 30, 'x' * 40, 'IRAS#16293-2422', 'a+b:c;d%e', '#1'][idx % 7]
+        name = ['s', 'SSTGLMC_G009.8925-00.3420', 'n' * 30, 'x' * 40, 'IRAS#16293-2422', 'a+b:c;d%e', '#1', 'src{x}', '{}', '{0}%s\\n', 'na\u00efve-\u03b2', "it's", '"q"', '{name:>5}'][idx % 14]
+        if '{' in name:
+            rec.cls('name-with-braces')
         if '#' in name:
             rec.cls('name-with-hash')
         style = idx % 3
